@@ -39,7 +39,7 @@ def alphabets():
     A["MaxTimes"] = (MaxTimes, [MaxTimes.zero, MaxTimes.one] + [MaxTimes(x) for x in mt], "exact")
     A["MaxTimes-float"] = (MaxTimes, [MaxTimes.zero, MaxTimes.one] + [MaxTimes(float(x)) for x in mt], "float")
     # incl. pairs whose gap exceeds the range of exp() (709.78): log-sum-exp must pivot on the larger one
-    lg = [math.log(0.5), math.log(0.25), math.log(2.0), -3.2, 0.0, -INF, 1.5, -800.0, 760.0] + ([-30.0, math.log(0.999), 4.0, -1e5] if ex else [])
+    lg = [math.log(0.5), math.log(0.25), math.log(0.75), math.log(0.9), math.log(2.0), -3.2, 0.0, -INF, 1.5, -800.0, 760.0] + ([-30.0, math.log(0.999), 4.0, -1e5] if ex else [])
     A["Log"] = (Log, [Log.zero, Log.one] + [Log(x) for x in lg], "float")
     pairs = [(F(0), F(0)), (F(1), F(0)), (F(1, 2), F(-1, 2)), (F(1, 4), F(1, 3)), (F(2), F(1)), (F(3, 4), F(0)), (F(1, 3), F(-2)), (F(0), F(1)), (F(-1, 2), F(2)), (F(1), F(1))] + ([(F(9, 10), F(1, 10)), (F(0), F(-3)), (F(5), F(-3))] if ex else [])
     A["Entropy"] = (Entropy, [Entropy.zero, Entropy.one] + [Entropy(p, r) for p, r in pairs], "exact")
